@@ -15,7 +15,7 @@ RULE = ("cases: kind in {stats, impose, weights, surgery, norms, order, moment};
         "(tie-heavy pools included), weights k/8 >= 0 with zeros (a family with total weight a power of two, on which every "
         "float operation of the implementation is exact and the Q model is compared with Qeq_bool; otherwise within 1e-9 "
         "relative), optional weights=None, boundary stream: empty samples, all-zero weights, zero variance/spread, negative "
-        "targets, negative/out-of-range indices, cyclic pair sets, p in {0,1,2,3,inf,-inf,fractional}; "
+        "targets, negative/out-of-range indices, self/symmetric/cyclic/chained pair sets, p in {0,1,2,3,4,inf,-inf,fractional}; "
         "non-trivial = at least two samples with two distinct positions and non-zero total weight; distinct = distinct case JSON")
 TRUSTED = ["real-number axioms of Coq's standard library (Reals) for the algebraic theorems (NumR instance of the model)",
            "sqrt enters the theorems as a section variable with hypotheses 0<=a -> sqrt a * sqrt a = a and 0<=a -> 0<=sqrt a; "
@@ -24,7 +24,7 @@ TRUSTED = ["real-number axioms of Coq's standard library (Reals) for the algebra
            "scale factor is dyadic), so the Q instance of the model is compared exactly there; all other comparisons are within "
            "1e-9 relative"]
 ASSUMPTIONS = ["IEEE rounding in the moment transforms is modelled, not verified (theorems are over R)",
-               "general p-norms, minkowski(p=3), impose_moment, weighted median/mad and the trimmed statistics (tmean/tvariance/tstd and "
+               "general p-norms (integer p: exact check that answer^p equals the sum of p-th powers; fractional p: float reference), minkowski(p=3), impose_moment, weighted median/mad and the trimmed statistics (tmean/tvariance/tstd and "
                "their impose_* forms) are checked by the oracle against independent exact recomputation only (no Gallina model): partial",
                "impose_collapse indices below -len(weights) and mismatched sample/weight lengths are not generated",
                "numpy's pairwise summation order is not modelled (irrelevant in exact arithmetic)"]
@@ -34,9 +34,9 @@ META = dict(
                 "impose_weight_norm reach the total, impose_support/impose_unweighted zero exactly the designated weights and keep total "
                 "weight and weighted mean, mean/variance/moment/expectation/ess_*/L0,L1,L2^2,Linf/chebyshev/manhattan/hamming/"
                 "euclidean^2 equal their textbook definitions: theorems about the Gallina model for all lists, weights and targets "
-                "(non-degenerate cases; error branches stated separately).  impose_collapse keeps the total weight only for "
-                "pair sets on which tools.connected yields keys outside their own member sets: the full statement is refuted "
-                "(known finding), the partial one is proved.  The model is tied to mystic.math.measures/distance/tools.connected by "
+                "(non-degenerate cases; error branches stated separately).  tools.connected (as repaired) returns disjoint "
+                "groups with no key among the members, hence impose_collapse keeps the total weight and the weighted mean and "
+                "zeroes every group member for EVERY pair selection (full theorems).  The model is tied to mystic.math.measures/distance/tools.connected by "
                 "running both on generated inputs on every run."),
     level_note=("Trusted: Coq kernel+VM, harness printers/oracles; theorems over R (stdlib real axioms), executed over Q.  "
                 "Oracle-only (partial): general p-norms, minkowski, impose_moment, median/mad/trimmed variants."),
@@ -619,25 +619,19 @@ def oracle(case, obs):
             y, wt = r[0], _fx(r[1])
             touched = set(i for p in pairs for i in p)
             if not _close(sum(wt), W):
-                out.append(_fail("impose_collapse_keeps_total_weight", site,
-                                 "cyclic-pairs-total-weight" if cyc else "total",
+                out.append(_fail("impose_collapse_keeps_total_weight", site, "total",
                                  dict(pairs=raw, got=float(sum(wt)), want=float(W))))
-            elif not cyc:
-                # acyclic selection: every component's weight is kept inside the component, untouched points keep theirs
-                for c in set(comp):
-                    mem = [i for i in range(n) if comp[i] == c]
-                    if sum(wt[i] for i in mem) != sum(w[i] for i in mem) and not _close(sum(wt[i] for i in mem), sum(w[i] for i in mem)):
-                        out.append(_fail("impose_collapse_moves_weight_within_pairs", site, "component", dict(pairs=raw, w=r[1])))
-                        break
+            # every connected component of the pair graph keeps its weight, carried by at most one of its points
+            for c in set(comp):
+                mem = [i for i in range(n) if comp[i] == c]
+                if not _close(sum(wt[i] for i in mem), sum(w[i] for i in mem)):
+                    out.append(_fail("impose_collapse_moves_weight_within_pairs", site, "component", dict(pairs=raw, w=r[1])))
+                    break
+                if len(mem) > 1 and sum(1 for i in mem if wt[i] != 0) > 1:
+                    out.append(_fail("impose_collapse_zeroes_exactly", site, "pair-not-collapsed", dict(pairs=raw, w=r[1])))
+                    break
             if any(wt[i] != w[i] for i in range(n) if i not in touched):
                 out.append(_fail("impose_collapse_zeroes_exactly", site, "untouched-weight-changed", dict(pairs=raw, w=r[1])))
-            if any(i != j and wt[i] != 0 and wt[j] != 0 for i, j in pairs):
-                # a matching (no index in two pairs) must always be collapsed pairwise; with chained pairs tools.connected
-                # may leave two dict entries for one component (known finding)
-                flat = [i for p in set(pairs) for i in p]
-                chained = len(flat) != len(set(flat))
-                out.append(_fail("impose_collapse_zeroes_exactly", site,
-                                 "chained-pairs-not-merged" if chained else "pair-not-collapsed", dict(pairs=raw, w=r[1])))
             if sum(wt) != 0 and not _close(_ref_mean(y, wt), mu):
                 out.append(_fail("impose_collapse_keeps_weighted_mean", site, "mean", dict(y=y, w=r[1], want=float(mu))))
     elif k == "norms":
@@ -645,27 +639,24 @@ def oracle(case, obs):
         if case["which"] == "Lnorm":
             v, p = _fx(case["v"]), case["p"]
             site = "distance.Lnorm"
-            if p == "-inf":
-                if v and (obs["r"].get("error") or not _close(r, min(abs(t) for t in v))):
-                    out.append(_fail("Lnorm_is_textbook", site, "minus-inf-" + str(obs["r"].get("error")), obs["r"]))
-                return out
-            if not v and p == "inf":
+            if not v and p in ("inf", "-inf"):
                 return out
             if p == 0:
                 ok = r is not None and F(r) == sum(1 for t in v if t != 0)
             elif p == "inf":
                 ok = r is not None and F(r) == max(abs(t) for t in v)
+            elif p == "-inf":
+                ok = r is not None and F(r) == min(abs(t) for t in v)
             elif p == 1:
                 ok = _close(r, sum(abs(t) for t in v))
-            elif p == 2:
-                ok = r is not None and r >= 0 and _close(F(r) ** 2, sum(t * t for t in v))
+            elif isinstance(p, int):
+                # exact: the p-th power of the answer is the sum of the p-th powers
+                ok = r is not None and r >= 0 and _close(F(r) ** p, sum(abs(t) ** p for t in v), F(p) * sum(abs(t) ** p for t in v))
             else:
                 ref = sum(abs(float(t)) ** p for t in v) ** (1.0 / p)
                 ok = _close(r, F(ref))
             if not ok:
-                frac = isinstance(p, float) and p != int(p) and any(t < 0 for t in v)
-                out.append(_fail("Lnorm_is_textbook", site, "fractional-p-negative-entry" if frac else "value",
-                                 dict(v=case["v"], p=p, got=obs["r"])))
+                out.append(_fail("Lnorm_is_textbook", site, "value", dict(v=case["v"], p=p, got=obs["r"])))
         else:
             a, b, m = _fx(case["a"]), _fx(case["b"]), case["metric"]
             d = [abs(s - t) for s, t in zip(a, b)] if case["pair"] else [abs(s - t) for s in a for t in b]
